@@ -15,7 +15,7 @@ OFFSETS = ["E_L/tau", "I_e/C_m", "1", "3/2", "I_e", "-E_L*g_L/C_m", "2.5", "E_L 
 NAMES = ["V_m", "x", "y", "z", "g_ex", "I_in", "u", "q", "r1", "s_2"]
 SHAPES = ["isolated", "chain", "fan_in", "fan_out", "cycle", "antisym", "nonadjacent", "offset_single", "offset_in_group",
           "depends_on_offset", "numeric_dep_analytic", "analytic_dep_numeric", "higher_order", "higher_order_offset", "mixed_nonlinear",
-          "time_dependent", "dense3", "chain_to_nonlinear", "chain_from_offset", "const_drift", "lin_and_nonlin_same_var"]
+          "time_dependent", "dense3", "chain_to_nonlinear", "chain_from_offset", "const_drift", "lin_and_nonlin_same_var", "numeric_reads_derivative"]
 
 
 def nonlinear_term(rng, me, others):
@@ -138,6 +138,16 @@ def make_truth(rng, shape=None, n=None):
     elif shape == "lin_and_nonlin_same_var":
         ent(a, lin={a: dec(), b: cf()}, nonlin=["%s*%s" % (a, b), "%s**2" % a][: rng.choice([1, 2])])
         ent(b, lin={b: dec(), a: cf()}, nonlin=rng.choice([[], ["%s**3" % b]]))
+    elif shape == "numeric_reads_derivative":
+        # a numerically solved variable reads (linearly) a *derivative* state of an analytically solved higher-order variable
+        o = rng.choice([2, 2, 3])
+        ent(a, order=o, lin={a + "'" * k: rng.choice(["-1/tau**2", "-2/tau", "-1", "-3", "-2"]) for k in range(o)})
+        lin = {b: dec(), a + "'" * rng.randrange(1, o): cf()}
+        if rng.random() < 0.5:
+            lin[a] = cf()
+        ent(b, lin=lin, nonlin=[nonlinear_term(rng, b, [])])
+        if rng.random() < 0.4:
+            ent(c, order=2, lin={c: "-1", c + "'": "-2", a + "'": cf()}, nonlin=["%s**3" % c])
     elif shape == "dense3":
         for nm in (a, b, c):
             ent(nm, lin={a: cf(), b: cf(), c: cf()})
